@@ -19,6 +19,7 @@ use std::{io, path};
 use async_trait::async_trait;
 use bytes::Bytes;
 use tempfile::TempDir;
+use tokio::io::AsyncWriteExt;
 use tokio::sync::Semaphore;
 use tracing::{error, trace, warn};
 use url::Url;
@@ -100,7 +101,22 @@ impl super::Protocol for Protocol {
                 options.create(true).truncate(true);
             }
         }
-        if let Err(err) = tokio::fs::write(&full_path, content).await {
+        // Open with the requested mode, so that `CreateNew` really does fail rather than
+        // replace an existing file. If the open fails nothing was created by this call, so
+        // there is nothing to clean up (and an existing file must be left alone).
+        let mut file = match options.open(&full_path).await {
+            Ok(file) => file,
+            Err(err) => {
+                error!("Failed to open {full_path:?} for writing: {err:?}");
+                return Err(super::Error::io_error(&full_path, err));
+            }
+        };
+        let result = match file.write_all(content).await {
+            Ok(()) => file.flush().await,
+            Err(err) => Err(err),
+        };
+        drop(file);
+        if let Err(err) = result {
             error!("Failed to write {full_path:?}: {err:?}");
             if let Err(err2) = tokio::fs::remove_file(&full_path).await {
                 error!("Failed to remove {full_path:?}: {err2:?}");
